@@ -31,7 +31,7 @@ pub struct Case {
     pub xargs_room: Option<u32>,
 }
 
-fn gen_hostile_name(g: &mut Gen, long_mode: bool) -> String {
+fn gen_hostile_name(g: &mut Gen, long_mode: bool, uniform_unit: Option<&'static str>) -> String {
     let mut s = String::new();
     match g.weighted(&if long_mode { [1, 1, 8, 1] } else { [6, 3, 2, 2] }) {
         0 => s.push_str(g.pick(HOSTILE_NAMES)),
@@ -43,7 +43,10 @@ fn gen_hostile_name(g: &mut Gen, long_mode: bool) -> String {
         2 => {
             // long name: hostile head + padding, up to 255 bytes
             s.push_str(g.pick(&["\n", "a\nb", " ", "é", "-", "x", "'", "\\"]));
-            let unit = g.pick(&["p", "é", "日", "q ", "𝄞"]);
+            let unit = match uniform_unit {
+                Some(u) => u,
+                None => g.pick(&["p", "é", "日", "q ", "𝄞"]),
+            };
             let target = g.usize_in(100, 250);
             while s.len() + unit.len() <= target {
                 s.push_str(unit);
@@ -62,10 +65,14 @@ pub fn gen_case(g: &mut Gen) -> Case {
     // one case in five is built from long names so that outputs exceed the 8 KiB pipe/buffer sizes
     let long_mode = g.chance(1, 5);
     let n = if long_mode { g.usize_in(6, 28) } else { g.usize_in(1, 28) };
+    // in half of the long cases every long name is padded with the same multi-byte character, so
+    // that the whole output has three or four bytes per character (a size counted in characters
+    // then falls short by far more than any reserve)
+    let uniform_unit: Option<&'static str> = if long_mode && g.bool() { Some(g.pick(&["日", "𝄞", "日"])) } else { None };
     for _ in 0..n {
         let dirs: Vec<String> = nodes.iter().filter(|x| x.kind == Kind::Dir && x.path.matches('/').count() < if long_mode { 10 } else { 5 }).map(|x| x.path.clone()).collect();
         let parent = if long_mode && g.chance(4, 5) { dirs.last().unwrap().clone() } else { g.pick(&dirs) };
-        let name = gen_hostile_name(g, long_mode);
+        let name = gen_hostile_name(g, long_mode, uniform_unit);
         let path = format!("{parent}/{name}");
         if nodes.iter().any(|x| x.path == path) || path.len() > 3500 {
             continue;
